@@ -327,14 +327,16 @@ def ob_bad_power():
 
 
 # ------------------------------------------------------------------ bounded: the real solvers
-def _solver_checks(s, ch, Kk, Ns, P, tol=1e-6, exact_power=True, aligned=False):
+def _solver_checks(s, ch, Kk, Ns, P, tol=1e-6, exact_power=True, aligned=False, power_tol=None):
+    # the MMSE solver meets the power constraint through a Newton search (scipy default tolerance; its own acceptance test is P/1e6)
+    power_tol = (1e-8 if exact_power else 1e-6) if power_tol is None else power_tol
     Pv = np.ones(Kk) * P if np.isscalar(P) else np.array(P, dtype=float)
     for k in range(Kk):
         F, fF = s.F[k], s.full_F[k]
         if not (abs(np.linalg.norm(F, 'fro') - 1) <= 1e-8):
             return {"precoder not unit norm": [k, float(np.linalg.norm(F, 'fro'))]}
         pw = np.linalg.norm(fF, 'fro') ** 2
-        if not (pw <= Pv[k] * (1 + 1e-8)):
+        if not (pw <= Pv[k] * (1 + power_tol)):
             return {"power exceeded": [k, float(pw), float(Pv[k])]}
         if exact_power and not (abs(pw - Pv[k]) <= 1e-8 * Pv[k]):
             return {"power not met": [k, float(pw), float(Pv[k])]}
